@@ -195,7 +195,8 @@ Theorem surf_sound_outside_known : forall zs op p res id rows v,
 Proof.
   intros zs op p res id rows v Hp Hz Hv Wv Wp Hsat Hk.
   (* the known-class test *)
-  unfold known_class in Hk. destruct rows as [|[v0|] rows']; try discriminate Hk.
+  unfold known_class in Hk.
+  destruct (zone_has_field rows) eqn:Hf; [|discriminate Hk]. cbn [negb] in Hk.
   destruct (saturates v) eqn:Sv; [discriminate Hk|]. destruct (saturates p) eqn:Sp; [discriminate Hk|].
   cbn [orb] in Hk.
   (* numbers and lanes *)
@@ -219,18 +220,18 @@ Proof.
   set (es := entry_sort (e0 :: es0)) in *.
   destruct (nlen es =? 0); [destruct op; discriminate Hp|].
   rewrite Ep in Hp.
-  set (ks := key_dedup (key_sort (present_keys (Some v0 :: rows')))).
+  set (ks := key_dedup (key_sort (present_keys rows))).
   assert (Hkv : In kv ks).
   { apply key_dedup_in, key_sort_in, present_keys_in. now exists v. }
   assert (Hentry : In (id, t_build ks) es).
-  { apply entry_sort_in. rewrite <- He. apply (entries_of_in zs (id, Some v0 :: rows')); [assumption|].
-    unfold zone_entry. cbn [snd fst].
-    destruct (present_keys (Some v0 :: rows')) as [|k0 kr] eqn:Hpk.
-    - exfalso. assert (Hx : In kv (present_keys (Some v0 :: rows'))) by (apply present_keys_in; now exists v).
+  { apply entry_sort_in. rewrite <- He. apply (entries_of_in zs (id, rows)); [assumption|].
+    unfold zone_entry. cbn [snd fst]. rewrite Hf.
+    destruct (present_keys rows) as [|k0 kr] eqn:Hpk.
+    - exfalso. assert (Hx : In kv (present_keys rows)) by (apply present_keys_in; now exists v).
       rewrite Hpk in Hx. destruct Hx.
     - reflexivity. }
   assert (Hlen : forall k, In k ks -> length k = 8%nat).
-  { intros k Hk'. now apply (surf_keys_len8 zs id (Some v0 :: rows')). }
+  { intros k Hk'. now apply (surf_keys_len8 zs id rows). }
   assert (Hnpp : forall k, In k ks -> ~ proper_prefix k kp).
   { intros k Hk' (s & Hs & E). apply Hlen in Hk'. rewrite E, app_length in Lkp.
     destruct s; [congruence|cbn [length] in Lkp; lia]. }
@@ -273,9 +274,12 @@ Proof.
   intros zs op p l res Hall Wp Sp Lp Hp id rows v Hz Hv Hsat.
   destruct (Hall id rows (Some v) Hz Hv) as (v' & E & Wv & Sv & Lv). injection E as <-.
   apply (surf_sound_outside_known zs op p res id rows v); try assumption.
-  unfold known_class. destruct rows as [|r0 rows']; [destruct Hv|].
-  destruct (Hall id (r0 :: rows') r0 Hz (or_introl eq_refl)) as (v0 & -> & _).
-  rewrite Sv, Sp, Lv, Lp. cbn [orb]. destruct l; reflexivity.
+  assert (Hf : zone_has_field rows = true).
+  { unfold zone_has_field. destruct surf_keys_from_first_event.
+    - destruct rows as [|r0 rows']; [destruct Hv|].
+      destruct (Hall id (r0 :: rows') r0 Hz (or_introl eq_refl)) as (v0 & -> & _). reflexivity.
+    - apply existsb_exists. exists (Some v). split; [assumption|reflexivity]. }
+  unfold known_class. rewrite Hf, Sv, Sp, Lv, Lp. cbn [negb orb]. destruct l; reflexivity.
 Qed.
 
 (** the hypotheses of [surf_sound_same_lane] are satisfiable with a non-trivial result *)
@@ -333,7 +337,12 @@ Theorem surf_refuted_saturation :
   false_negative [(0, [Some (VFloat 4899916394579099648)])] OGt (VFloat 4895412794951729152) SurfSaturatedFloat.
 Proof. fn_witness (@nil N) 0 [Some (VFloat 4899916394579099648)] (VFloat 4899916394579099648). Qed.
 
-(** zone 0: first event without the (optional) field, second event holds 5; probe [> 1] *)
+(** zone 0: first event without the (optional) field, second event holds 5; probe [> 1]
+    (while the builder takes the field set from the first event only) *)
 Theorem surf_refuted_first_row :
+  surf_keys_from_first_event = true ->
   false_negative [(0, [None; Some (VInt 5)]); (1, [Some (VInt 0)])] OGt (VInt 1) SurfFirstRowLacksField.
-Proof. fn_witness (@nil N) 0 [@None sval; Some (VInt 5)] (VInt 5). Qed.
+Proof.
+  intros Hparam.
+  first [ discriminate Hparam | fn_witness (@nil N) 0 [@None sval; Some (VInt 5)] (VInt 5) ].
+Qed.
